@@ -712,4 +712,19 @@ theorem Block2.split_area_add (b : Block2) : b.area = b.split.1.area + b.split.2
     have : b.y1 - b.y0 = ((b.y1 + b.y0) / 2 - b.y0) + (b.y1 - (b.y1 + b.y0) / 2) := by omega
     rw [this]; ring
 
+/-! ### the always-true filter rejects nothing (non-vacuity of `Conservative`) -/
+
+theorem rejected_of_true (mv : Nat) (hpos : 0 < mv) :
+    ∀ b : Block, rejected mv hpos (fun _ => true) b = [] := by
+  intro b
+  induction hv : b.volume using Nat.strong_induction_on generalizing b with
+  | _ n ih =>
+    rw [rejected_unfold]
+    by_cases hs : b.volume / 2 < mv
+    · simp [hs]
+    · have hl := Block.split_volume_lt b (by omega)
+      simp only [hs, if_false, Bool.true_eq_false]
+      rw [ih _ (hv ▸ hl.1) b.split.1 rfl, ih _ (hv ▸ hl.2) b.split.2 rfl]
+      rfl
+
 end M3d.Partition
